@@ -1792,6 +1792,7 @@ class NLDFAuxiliaryPlan(ABC):
             occd1_feat[num_vj + i] = np.einsum(
                 "xg,xg->g", l1_vals[j], l1_occd[k]
             ) + np.einsum("xg,xg->g", l1_occd[j], l1_vals[k])
+            occd1_feat[num_vj + i] *= self.nspin
             i += 1
         return self.nspin * (occd1_feat + occd2_feat)
 
